@@ -100,12 +100,32 @@ def check_grad(ctx, cell, case):
         return
     ctx.check(bool(torch.isfinite(torch.view_as_real(g) if g.is_complex() else g).all()), "C19.d_finite", cell, case, None, None, "gradient contains NaN/inf", CHK)
     if mode == "gradcheck_papr":
-        # only where PAPR clipping is inactive or strictly active is the map smooth; use a flat-ish signal (no clipping) and check exact identity gradient otherwise skip
+        # The PAPR map is piecewise smooth (clipping masks and the iteration count are locally constant away from
+        # kinks): where clipping is active it is compared by central differences with a kink guard - the numeric
+        # derivative must be stable between eps and eps/4, otherwise the direction crosses a kink and is skipped.
         with torch.no_grad():
             p = x.abs() ** 2
-            if float(p.max() / p.mean()) > 0.9 * 3.0 * 0.98:
-                ctx.cls("papr_near_or_inside_clipping_skipped")
-                return
+            active = float(p.max() / p.mean()) > 0.9 * 3.0 * 0.98
+        if active:
+            ctx.cls("papr_clipping_active_cases")
+            for d in range(6):
+                v = torch.from_numpy((rng.randn(*shape) + (1j * rng.randn(*shape) if cplx else 0)).astype(np.complex128 if cplx else np.float64))
+                v = v / v.abs().pow(2).sum().sqrt()
+
+                def L(t):
+                    yy = f(t)
+                    return float(((yy.abs() ** 2).sum() if yy.is_complex() else (yy ** 2).sum()))
+                n1 = (L(x.detach() + 1e-4 * v) - L(x.detach() - 1e-4 * v)) / 2e-4
+                n2 = (L(x.detach() + 2.5e-5 * v) - L(x.detach() - 2.5e-5 * v)) / 5e-5
+                if abs(n1 - n2) > 1e-3 * max(abs(n1), abs(n2), 1e-6):
+                    ctx.cls("papr_direction_crosses_kink_skipped")
+                    continue
+                ana = float((g.conj() * v).real.sum()) if cplx else float((g * v).sum())
+                ctx.ev()
+                ctx.check(abs(n2 - ana) <= 2e-3 * max(abs(n2), abs(ana)) + 1e-6, "C19.a_gradcheck", cell, {**case, "direction": d}, {"numeric": n2, "analytic": ana}, "agree within 2e-3",
+                          "analytic gradient of the PAPR constraint does not match finite differences where clipping is active", CHK)
+            ctx.cls("grad_" + name)
+            return
     if mode.startswith("gradcheck"):
         try:
             ok = torch.autograd.gradcheck(f, (x,), eps=1e-6, atol=1e-5, rtol=1e-3, raise_exception=False, check_undefined_grad=False)
